@@ -21,6 +21,8 @@ Definition PLUS : N := 43.    Definition DOT : N := 46.
 Definition bytes := list N.
 Definition bytes_eqb : bytes -> bytes -> bool := list_eqb N.eqb.
 Definition blen (l : bytes) : N := N.of_nat (length l).
+(** linear-time reverse ([List.rev] is quadratic) *)
+Definition frev (l : bytes) : bytes := rev_append l [].
 
 (** Run-length compressed byte strings, used only to ship long buffers in cases. *)
 Inductive seg := L (l : bytes) | R (n : N) (b : N).
@@ -279,8 +281,8 @@ Fixpoint split_blocks (fuel : nat) (buf : bytes) : list bytes :=
 (** What the loop does with a block: [None] = skipped (empty, all whitespace, comment);
     [Some text] = the text handed to parsePoint (and quoted in the error). *)
 Definition strip_nl (l : bytes) : bytes :=
-  match rev l with
-  | c :: r => if c =? NL then rev r else l
+  match frev l with
+  | c :: r => if c =? NL then frev r else l
   | [] => l
   end.
 Definition candidate (block : bytes) : option bytes :=
@@ -519,13 +521,13 @@ Fixpoint scan_fields_st (m : fmode) (quoted : bool) (eq cm : N) (p1 p2 : N) (l :
   match m with
   | FTok isnum racc =>
     match l with
-    | [] => match check_token isnum (rev racc) with
+    | [] => match check_token isnum (frev racc) with
             | Err e => Err e
             | Ok _ => fields_fin false eq cm []
             end
     | c :: t =>
       if (c =? COMMA) || (c =? SP) then
-        match check_token isnum (rev racc) with
+        match check_token isnum (frev racc) with
         | Err e => Err e
         | Ok _ =>
           if c =? COMMA then fcons c (scan_fields_st FNorm false eq (cm + 1) c (hd 0 racc) t)
@@ -666,7 +668,8 @@ Definition safe_calc_time (ts : Z) (p : precision) : option Z :=
   end.
 (** time.Truncate on a Unix time: floor to a multiple of d (the zero Time is a whole
     number of hours before the Unix epoch). *)
-Definition trunc_time (t : Z) (p : precision) : Z := (t - t mod prec_trunc p)%Z.
+(** (UnixNano() of the truncated time wraps if the floor falls below MinInt64.) *)
+Definition trunc_time (t : Z) (p : precision) : Z := wrap64 (t - t mod prec_trunc p)%Z.
 
 (** * parsePoint *)
 Record rawpoint := { rp_key : bytes; rp_fields : bytes; rp_time : Z }.
@@ -800,17 +803,17 @@ Fixpoint walk_tags_st (m : wtmode) (l : bytes) {struct l} : list (bytes * bytes)
     match l with
     | [] => []   (* no '=': scanTagValue(buf, len+1) returns nil; loop ends *)
     | c :: t =>
-      if (c =? EQ) && (first || negb (prev =? BSL)) then walk_tags_st (TV c (rev rk) []) t
+      if (c =? EQ) && (first || negb (prev =? BSL)) then walk_tags_st (TV c (frev rk) []) t
       else walk_tags_st (TK false c (c :: rk)) t
     end
   | TV prev k rv =>
     match l with
-    | [] => match rv with [] => [] | _ => [(unescape_tag k, unescape_tag (rev rv))] end
+    | [] => match rv with [] => [] | _ => [(unescape_tag k, unescape_tag (frev rv))] end
     | c :: t =>
       if (c =? COMMA) && negb (prev =? BSL) then
         match rv with
         | [] => walk_tags_st (TK false c [c]) t
-        | _ => (unescape_tag k, unescape_tag (rev rv)) :: walk_tags_st (TK false c []) t
+        | _ => (unescape_tag k, unescape_tag (frev rv)) :: walk_tags_st (TK false c []) t
         end
       else walk_tags_st (TV c k (c :: rv)) t
     end
